@@ -12,10 +12,25 @@ import (
 // subset of unsynced operations, sector tearing, torn meta) is recovered by the real code and judged.
 func crashBoundary(tornEvery int) func(x *apix.Exec, kind string) *apix.Fail {
 	return func(x *apix.Exec, kind string) *apix.Fail {
-		if kind != "commit" || x.PreImage == nil {
+		if (kind != "commit" && kind != "reopen") || x.PreImage == nil {
 			return nil
 		}
 		log := x.Tap.Log[x.TxLogStart:]
+		pre, preID := x.PrevCommitted, x.CommittedID-1
+		if kind == "reopen" {
+			// Open itself commits when it has to persist a freelist that was not synced: same content, next txid
+			wrote := false
+			for _, ev := range log {
+				if ev.Op == 0 { // write
+					wrote = true
+				}
+			}
+			if !wrote {
+				return nil
+			}
+			pre = x.Committed
+			hx.Counters["open_flush_commits_enumerated"]++
+		}
 		ps := x.Cfg.PageSize
 		eps := apix.Epochs(x.PreImage, log, ps)
 		other := x.Cfg
@@ -25,7 +40,7 @@ func crashBoundary(tornEvery int) func(x *apix.Exec, kind string) *apix.Fail {
 			other.Freelist = "hashmap"
 		}
 		other.NoFreelistSync = !other.NoFreelistSync
-		sp := &apix.RecoverSpec{PageSize: ps, Pre: x.PrevCommitted, PreID: x.CommittedID - 1, Post: x.Committed, PostID: x.CommittedID,
+		sp := &apix.RecoverSpec{PageSize: ps, Pre: pre, PreID: preID, Post: x.Committed, PostID: x.CommittedID,
 			Cfgs: []apix.Cfg{x.Cfg, other}, Dir: hx.WorkDir()}
 		var st apix.CrashStats
 		var fail *apix.Fail
